@@ -133,6 +133,21 @@ CLAIMED = {
         design_ref='DESIGN.md 5 (C03)',
         note=TRUST + '; the bounded tier relies on IEEE exactness for small-integer inputs with power-of-two pivots and is never counted as proved',
         technique='contract-based deductive verification (CBMC dfcc contracts with ghost tags) + bounded CBMC check of the extracted kernels on exact inputs'),
+    'C14': dict(
+        category='proof',
+        text='Partial: ONE clause of the property is a per-function statement and is under contract -- "an observation is excluded for a gross '
+             'absolute term exactly when its positional misclosure exceeds tol-abs". The positional misclosure m_T [mm] is written by hand per '
+             'observation type (lengths: |observed - computed| * 1000; angular types: |b| * sight length / (10*R2G), slope length for the zenith '
+             'angle, for an angle the LONGER arm as the documentation says). Proved on the extracted TestAbsTermVisitor (13 visit overloads, '
+             'setFromTo, check, value), LocalNetwork::test_abs_term, the flag loop of project_equations and remove_huge_abs_terms: each visit '
+             'hands exactly m_T to check; flagged <=> m_T > tol-abs (strictly); the observation tested is revised_obs_[i-1] with its own from/to; '
+             'the point map is not modified; an observation is set passive exactly when it is flagged, nothing else is touched. KNOWN FINDING '
+             '(printed on every run, not suppressed elsewhere): after project_equations() the test reads the HOMOGENISED right-hand side, so with '
+             'non-unit weights removal and listing disagree with the criterion; its repair changes an archived result and was reverted. NOT '
+             'decided: everything else in C14 (removed points listed with a reason, equality with the run on the reduced input) relates complete runs.',
+        design_ref='DESIGN.md 5 (C13, C14), 10.10',
+        note=TRUST + '; sqrt/hypot/fabs enter as symbols with assumed contracts; Vec::operator() through the index contract of unit matvec_index; accept() is a 13-way dispatch stub; which observations survive revision (all points have xy) is checked syntactically on local_revision.cpp on every run',
+        technique='contract-based deductive verification (CBMC dfcc contracts; cvc5 for the value identities, SAT for structure; concrete sample companions labelled bounded)'),
     'C15': dict(
         category='proof',
         text='Matrix library under contract: the packed/banded index maps of Vec, Mat, SymMat, CovMat, BandMat (real operator()/operator[] '
@@ -190,7 +205,6 @@ NA = {
     'C07': 'metamorphic relation between two complete runs on two input files; not expressible as a function contract',
     'C08': 'relation between runs with different constraint sets, numerical',
     'C13': 'export -> parse -> adjust fixed point is a whole-program history property',
-    'C14': 'equality with the run on the reduced input relates two complete runs; reporting completeness is about text output',
     'C17': 'accuracy of exp/log/pow based approximations; CBMC has no semantics for transcendental functions, an assumed contract would assume the property',
     'C19': 'whole-program property of gama-g3 (parser + model + linearisation + solver + writer)',
 }
